@@ -227,8 +227,10 @@ def audit_axioms(pid):
 # Stage C/D: harness and driver
 # ---------------------------------------------------------------------------------------------
 
-def write_overlay():
-    """Overlay: harness main package at /repo/cmd/wtfverif, hook files into their packages."""
+def write_overlay(stubbed=None):
+    """Overlay: harness main package at /repo/cmd/wtfverif, hook files into their packages.
+    stubbed: {hook file name: path of its stub} - hooks that no longer compile against the source (see build_harness)."""
+    stubbed = stubbed or {}
     rep = {}
     for f in sorted(os.listdir(HARNESS)):
         if f.endswith(".go"):
@@ -239,22 +241,47 @@ def write_overlay():
             # hooks/<pkg-with-dashes>__<name>.go  e.g. internal-cache__verif_hooks.go
             if f.endswith(".go") and "__" in f:
                 pkg, name = f.split("__", 1)
-                rep[os.path.join(REPO, *pkg.split("-"), "zz_" + name)] = os.path.join(hooks, f)
+                rep[os.path.join(REPO, *pkg.split("-"), "zz_" + name)] = stubbed.get(f, os.path.join(hooks, f))
     path = os.path.join(BUILD, "overlay.json")
     os.makedirs(BUILD, exist_ok=True)
     json.dump({"Replace": rep}, open(path, "w"), indent=1)
     return path
 
 
+HARNESS_DEGRADED = {}   # hook file -> compiler message, for hooks replaced by stubs in the last build
+
+
 def build_harness(race=False):
-    ov = write_overlay()
+    """Builds the harness.  A hook that no longer compiles against the source (it reads an unexported function that was renamed,
+    removed or re-typed) is replaced by a stub whose functions panic with `verif-hook-unavailable:<file>`: the harness still
+    builds, and only the cases (of whichever property) that actually call into that hook fail - instead of every check of every
+    property losing its harness over one helper function."""
     out_bin = HARNESS_BIN + ("-race" if race else "")
-    cmd = ["go", "build", "-tags", "verif", "-overlay", ov, "-o", out_bin]
-    if race:
-        cmd.append("-race")
-    cmd.append("./cmd/wtfverif")
-    rc, out = sh(cmd, cwd=REPO, env=go_env(), timeout=1200)
-    return rc == 0, out
+    stubbed, log = {}, ""
+    HARNESS_DEGRADED.clear()
+    for attempt in range(4):
+        ov = write_overlay(stubbed)
+        cmd = ["go", "build", "-tags", "verif", "-overlay", ov, "-o", out_bin]
+        if race:
+            cmd.append("-race")
+        cmd.append("./cmd/wtfverif")
+        rc, out = sh(cmd, cwd=REPO, env=go_env(), timeout=1200)
+        log += out
+        if rc == 0:
+            return True, log
+        bad = sorted(set(re.findall(r"harness/hooks/([A-Za-z0-9_.-]+__[A-Za-z0-9_.-]+\.go):\d+", out)) - set(stubbed))
+        if not bad or not build_xlate()[0]:
+            return False, log
+        os.makedirs(os.path.join(BUILD, "stubs"), exist_ok=True)
+        for f in bad:
+            dst = os.path.join(BUILD, "stubs", f)
+            rc2, out2 = sh([XLATE_BIN, "-stub", os.path.join(HARNESS, "hooks", f), "-stubout", dst, "-stubname", f], env=go_env())
+            if rc2 != 0:
+                return False, log + out2
+            stubbed[f] = dst
+            HARNESS_DEGRADED[f] = "\n".join(l for l in out.split("\n") if f in l)[:600]
+        log += "\n[hooks replaced by stubs: %s]\n" % ", ".join(bad)
+    return False, log
 
 
 def build_wtf_binary():
@@ -567,6 +594,8 @@ class Ctx:
         with BuildLock():
             ok, out = build_harness(race=race)
             self.oblige("build:harness(-tags verif, overlay)", "build", ok, out)
+            if HARNESS_DEGRADED:
+                self.cov["hooks_unavailable"] = dict(HARNESS_DEGRADED)
             ok2 = True
             if need_driver:
                 ok2, out2 = build_driver()
